@@ -29,6 +29,12 @@ Section Spec.
   Notation norm := (norm val rt).
   Notation merge_into := (merge_into val).
   Notation init_map := (init_map val vnet vfront).
+  Notation script_new := (script_new val).
+  Notation script_dirty := (script_dirty val).
+  Notation script_front := (script_front val rt).
+  Notation script_snaps := (script_snaps val rt).
+  Notation script_data := (script_data val).
+  Notation has_query := (has_query val).
 
   Fixpoint conn_r (rh : list op) (sid : Z) : cstate :=
     match rh with
@@ -62,6 +68,9 @@ Section Spec.
     | OBackSet b' k v :: older =>
         if Z.eqb b' b then match bsid_r older b with Some _ => aset k v (bnew_r older b) | None => [] end
         else bnew_r older b
+    | OBackScript b' acts :: older =>
+        if Z.eqb b' b then match bsid_r older b with Some _ => script_new (bnew_r older b) acts | None => [] end
+        else bnew_r older b
     | _ :: older => bnew_r older b
     end.
 
@@ -79,6 +88,14 @@ Section Spec.
         if Z.eqb b' b then
           match bsid_r older b with
           | Some sid => if live_r older sid then false else bdirty_r older b
+          | None => false
+          end
+        else bdirty_r older b
+    | OBackScript b' acts :: older =>
+        if Z.eqb b' b then
+          match bsid_r older b with
+          | Some sid => if live_r older sid && has_query acts then false
+                        else script_dirty (bdirty_r older b) acts
           | None => false
           end
         else bdirty_r older b
@@ -106,6 +123,14 @@ Section Spec.
         | Some w => option_map (fun m => merge_into m w) (fmap_r older sid)
         | None => fmap_r older sid
         end
+    | OBackScript b acts :: older =>
+        match bsid_r older b with
+        | Some s =>
+            if Z.eqb s sid
+            then option_map (fun m => script_front m (bnew_r older b) (bdirty_r older b) acts) (fmap_r older sid)
+            else fmap_r older sid
+        | None => fmap_r older sid
+        end
     | _ :: older => fmap_r older sid
     end.
 
@@ -130,6 +155,17 @@ Section Spec.
           | None => []
           end
         else bdata_r older b
+    | OBackScript b' acts :: older =>
+        if Z.eqb b' b then
+          match bsid_r older b with
+          | Some sid => match fmap_r older sid with
+                        | Some m => script_data (bdata_r older b)
+                                      (script_snaps m (bnew_r older b) (bdirty_r older b) acts)
+                        | None => bdata_r older b
+                        end
+          | None => []
+          end
+        else bdata_r older b
     | _ :: older => bdata_r older b
     end.
 
@@ -147,11 +183,15 @@ Section Spec.
     | None => None
     end.
 
+  (* key k is Set somewhere in a script *)
+  Definition set_in (k : Z) (acts : list (act val)) : bool :=
+    existsb (fun a => match a with ASet k' _ => Z.eqb k k' | _ => false end) acts.
+
   (* the connection an operation writes to *)
   Definition writes_to (h : list op) (o : op) : option Z :=
     match o with
     | OConnect s | ORemove s | OFrontSet s _ _ => Some s
-    | OBackPush b => bsid h b
+    | OBackPush b | OBackScript b _ => bsid h b
     | _ => None
     end.
 
@@ -194,6 +234,11 @@ Section Spec.
     | OBackQuery b =>
         match bsid h b with
         | Some sid => match fmap h sid with Some _ => BOk | None => BErr end
+        | None => BIgnored
+        end
+    | OBackScript b acts =>
+        match bsid h b with
+        | Some sid => BAcks (script_acks val (match fmap h sid with Some _ => true | None => false end) acts)
         | None => BIgnored
         end
     end.
